@@ -684,3 +684,267 @@ def pattern_ok(fid, trig_paths, path):
     if fid == "d":
         return any(path.startswith(t) for t in trig_paths)
     return False
+
+
+# ----------------------------------------------------------------------------- quirk stream
+# Near-valid documents OUTSIDE the property's domain (tie B only): they drive the error
+# branches and the quirks of from_dict/render that `Valid` excludes.
+
+
+def _pick(r, xs):
+    xs = list(xs)
+    return r.choice(xs) if xs else None
+
+
+def quirk(d, r: random.Random):
+    """apply one random out-of-domain mutation; returns (doc, name) or (None, None)"""
+    d = copy.deepcopy(d)
+    nodes = [n for _, _, n in _nodes(d)]
+    routers = [n for n in nodes if "router" in n]
+    switches = [n for n in routers if n["router"]["type"] == "switch"]
+    actions = [(n, a) for n in nodes for a in n.get("actions", [])]
+    muts = []
+
+    def m(name, cond=True):
+        def deco(f):
+            if cond:
+                muts.append((name, f))
+            return f
+        return deco
+
+    @m("node_uuid_empty", nodes)
+    def _():
+        _pick(r, nodes)["uuid"] = ""
+
+    @m("exit_uuid_empty", nodes)
+    def _():
+        _pick(r, _pick(r, nodes)["exits"])["uuid"] = ""
+
+    @m("basic_two_exits", [n for n in nodes if "router" not in n])
+    def _():
+        n = _pick(r, [n for n in nodes if "router" not in n])
+        n["exits"] = n["exits"] + [{"uuid": "ffffffff-0000-4000-8000-000000000001", "destination_uuid": None}]
+
+    @m("basic_no_exit", [n for n in nodes if "router" not in n])
+    def _():
+        _pick(r, [n for n in nodes if "router" not in n])["exits"] = []
+
+    @m("hard_exit", nodes)
+    def _():
+        _pick(r, _pick(r, nodes)["exits"])["destination_uuid"] = "HARD_EXIT"
+
+    @m("dest_empty_string", nodes)
+    def _():
+        _pick(r, _pick(r, nodes)["exits"])["destination_uuid"] = ""
+
+    @m("default_uuid_unknown", switches)
+    def _():
+        _pick(r, switches)["router"]["default_category_uuid"] = "nope"
+
+    @m("category_exit_unknown", routers)
+    def _():
+        _pick(r, _pick(r, routers)["router"]["categories"])["exit_uuid"] = "nope"
+
+    @m("unreferenced_exit", routers)
+    def _():
+        n = _pick(r, routers)
+        n["exits"] = n["exits"] + [{"uuid": "ffffffff-0000-4000-8000-000000000002", "destination_uuid": None}]
+
+    @m("shared_exit", [n for n in routers if len(n["router"]["categories"]) > 1])
+    def _():
+        n = _pick(r, [n for n in routers if len(n["router"]["categories"]) > 1])
+        n["router"]["categories"][0]["exit_uuid"] = n["router"]["categories"][1]["exit_uuid"]
+
+    @m("duplicate_exit_uuid", [n for n in routers if len(n["exits"]) > 1])
+    def _():
+        n = _pick(r, [n for n in routers if len(n["exits"]) > 1])
+        n["exits"][1]["uuid"] = n["exits"][0]["uuid"]
+
+    @m("duplicate_category_uuid", [n for n in routers if len(n["router"]["categories"]) > 1])
+    def _():
+        n = _pick(r, [n for n in routers if len(n["router"]["categories"]) > 1])
+        n["router"]["categories"][0]["uuid"] = n["router"]["categories"][-1]["uuid"]
+
+    @m("timeout_zero_seconds", [n for n in switches if "timeout" in n["router"].get("wait", {})])
+    def _():
+        _pick(r, [n for n in switches if "timeout" in n["router"].get("wait", {})])["router"]["wait"]["timeout"]["seconds"] = 0
+
+    @m("timeout_category_unknown", [n for n in switches if "timeout" in n["router"].get("wait", {})])
+    def _():
+        _pick(r, [n for n in switches if "timeout" in n["router"].get("wait", {})])["router"]["wait"]["timeout"]["category_uuid"] = "nope"
+
+    @m("timeout_is_default", [n for n in switches if "timeout" in n["router"].get("wait", {})])
+    def _():
+        n = _pick(r, [n for n in switches if "timeout" in n["router"].get("wait", {})])
+        n["router"]["wait"]["timeout"]["category_uuid"] = n["router"]["default_category_uuid"]
+
+    @m("wait_type_other", [n for n in switches if "wait" in n["router"]])
+    def _():
+        _pick(r, [n for n in switches if "wait" in n["router"]])["router"]["wait"]["type"] = "dial"
+
+    @m("case_unknown_test", [n for n in switches if n["router"]["cases"]])
+    def _():
+        _pick(r, _pick(r, [n for n in switches if n["router"]["cases"]])["router"]["cases"])["type"] = "has_nothing"
+
+    @m("noarg_test_with_args", [n for n in switches if n["router"]["cases"]])
+    def _():
+        c = _pick(r, _pick(r, [n for n in switches if n["router"]["cases"]])["router"]["cases"])
+        c["type"], c["arguments"] = "has_text", ["x"]
+
+    @m("has_group_one_arg", [n for n in switches if n["router"]["cases"]])
+    def _():
+        c = _pick(r, _pick(r, [n for n in switches if n["router"]["cases"]])["router"]["cases"])
+        c["type"], c["arguments"] = "has_group", ["u-only"]
+
+    @m("has_group_unlisted", [n for n in switches if n["router"]["cases"]])
+    def _():
+        c = _pick(r, _pick(r, [n for n in switches if n["router"]["cases"]])["router"]["cases"])
+        c["type"], c["arguments"] = "has_group", ["99999999-0000-4000-8000-000000000009", "unlisted group"]
+
+    @m("case_uuid_empty", [n for n in switches if n["router"]["cases"]])
+    def _():
+        _pick(r, _pick(r, [n for n in switches if n["router"]["cases"]])["router"]["cases"])["uuid"] = ""
+
+    @m("category_name_too_long", routers)
+    def _():
+        _pick(r, _pick(r, routers)["router"]["categories"])["name"] = "x" * r.choice([115, 116])
+
+    @m("switch_with_plain_action", [n for n in switches if not n["actions"]])
+    def _():
+        _pick(r, [n for n in switches if not n["actions"]])["actions"] = [{"type": "send_msg", "uuid": "u", "text": "t", "attachments": [], "quick_replies": []}]
+
+    @m("router_action_two_actions", [n for n in switches if n["actions"]])
+    def _():
+        n = _pick(r, [n for n in switches if n["actions"]])
+        n["actions"] = n["actions"] + [copy.deepcopy(n["actions"][0])]
+
+    @m("random_with_actions", [n for n in routers if n["router"]["type"] == "random"])
+    def _():
+        _pick(r, [n for n in routers if n["router"]["type"] == "random"])["actions"] = [{"type": "play_audio", "uuid": "u", "audio_url": "x"}]
+
+    @m("empty_attachment", [a for _, a in actions if a["type"] == "send_msg"])
+    def _():
+        a = _pick(r, [a for _, a in actions if a["type"] == "send_msg"])
+        a["attachments"] = ["", "image:x", ""]
+
+    @m("field_key_empty", [a for _, a in actions if a["type"] == "set_contact_field"])
+    def _():
+        _pick(r, [a for _, a in actions if a["type"] == "set_contact_field"])["field"]["key"] = ""
+
+    @m("templating_uuid_empty", [a for _, a in actions if "templating" in a])
+    def _():
+        _pick(r, [a for _, a in actions if "templating" in a])["templating"]["uuid"] = ""
+
+    @m("group_ref_other_uuid", [a for _, a in actions if a.get("groups") and a["type"] in ("add_contact_groups", "remove_contact_groups")])
+    def _():
+        a = _pick(r, [a for _, a in actions if a.get("groups") and a["type"] in ("add_contact_groups", "remove_contact_groups")])
+        a["groups"][0]["uuid"] = "eeeeeeee-0000-4000-8000-00000000000e"
+
+    @m("group_ref_unlisted", [a for _, a in actions if a["type"] in ("add_contact_groups", "remove_contact_groups")])
+    def _():
+        a = _pick(r, [a for _, a in actions if a["type"] in ("add_contact_groups", "remove_contact_groups")])
+        a["groups"] = a["groups"] + [{"name": "unlisted group", "uuid": "99999999-0000-4000-8000-000000000009"}]
+
+    @m("group_ref_uuid_empty", [a for _, a in actions if a.get("groups") and a["type"] in ("add_contact_groups", "remove_contact_groups")])
+    def _():
+        _pick(r, [a for _, a in actions if a.get("groups") and a["type"] in ("add_contact_groups", "remove_contact_groups")])["groups"][0]["uuid"] = ""
+
+    @m("flow_ref_other_uuid", [a for _, a in actions if a["type"] == "enter_flow"])
+    def _():
+        _pick(r, [a for _, a in actions if a["type"] == "enter_flow"])["flow"]["uuid"] = "eeeeeeee-0000-4000-8000-00000000000f"
+
+    @m("top_group_duplicate", d["groups"])
+    def _():
+        d["groups"].append(dict(d["groups"][0]))
+
+    @m("top_group_uuid_empty", d["groups"])
+    def _():
+        _pick(r, d["groups"])["uuid"] = ""
+
+    @m("top_groups_cleared", d["groups"])
+    def _():
+        d["groups"] = []
+
+    @m("flow_uuid_empty", d["flows"])
+    def _():
+        _pick(r, d["flows"])["uuid"] = ""
+
+    @m("flow_metadata_null", d["flows"])
+    def _():
+        _pick(r, d["flows"])["metadata"] = r.choice([None, [], 0, ""])
+
+    @m("flow_duplicate_name", len(d["flows"]) > 1)
+    def _():
+        d["flows"][1]["name"] = d["flows"][0]["name"]
+
+    @m("site_empty")
+    def _():
+        d["site"] = r.choice(["", None])
+
+    @m("fields_null")
+    def _():
+        d["fields"] = r.choice([None, {}])
+
+    @m("trigger_flow_undefined", d["triggers"])
+    def _():
+        _pick(r, d["triggers"])["flow"] = {"name": "no such flow", "uuid": "dddddddd-0000-4000-8000-00000000000d"}
+
+    @m("trigger_K_no_keyword", d["triggers"])
+    def _():
+        t = _pick(r, d["triggers"])
+        t["trigger_type"] = "K"
+        t.pop("keyword", None)
+        t["keywords"] = r.choice([[], [""]])
+
+    @m("trigger_no_keyword_at_all", d["triggers"])
+    def _():
+        t = _pick(r, d["triggers"])
+        t.pop("keyword", None)
+        t.pop("keywords", None)
+
+    @m("trigger_keyword_mismatch", d["triggers"])
+    def _():
+        t = _pick(r, d["triggers"])
+        t["keywords"] = ["one", "two"]
+        t["keyword"] = "zero"
+
+    @m("trigger_channel_empty", d["triggers"])
+    def _():
+        _pick(r, d["triggers"])["channel"] = ""
+
+    @m("trigger_K_without_match_type", d["triggers"])
+    def _():
+        t = _pick(r, d["triggers"])
+        t["trigger_type"] = "K"
+        t["keywords"] = ["kw"]
+        t.pop("keyword", None)
+        t.pop("match_type", None)
+
+    events = [e for c in d["campaigns"] for e in c["events"]]
+
+    @m("event_M_no_language", [e for e in events if e["event_type"] == "M"])
+    def _():
+        _pick(r, [e for e in events if e["event_type"] == "M"]).pop("base_language")
+
+    @m("event_M_with_flow", [e for e in events if e["event_type"] == "M"] and d["flows"])
+    def _():
+        f = d["flows"][0]
+        _pick(r, [e for e in events if e["event_type"] == "M"])["flow"] = {"name": f["name"], "uuid": f["uuid"]}
+
+    @m("event_F_with_language", [e for e in events if e["event_type"] == "F"])
+    def _():
+        _pick(r, [e for e in events if e["event_type"] == "F"])["base_language"] = "eng"
+
+    @m("event_uuid_empty", events)
+    def _():
+        _pick(r, events)["uuid"] = ""
+
+    @m("campaign_uuid_empty", d["campaigns"])
+    def _():
+        _pick(r, d["campaigns"])["uuid"] = ""
+
+    if not muts:
+        return None, None
+    name, f = r.choice(muts)
+    f()
+    return d, name
